@@ -63,7 +63,7 @@ def streams(pid, tier, rng, scale=1):
         cnt = BUDGET[tier][len(list(args))] * scale
         if pid == 'C16': cnt = cnt // 8
         if pid == 'C17': cnt = cnt // 4
-        for vals in cases_for(ty, n, args, cnt, rng, TYPES):
+        for vals in cases_for(ty, n, args, cnt, rng, TYPES, op=op):
             lines.append(ty + ' ' + op + ' ' + ' '.join('%x' % v for v in vals))
     lines += extra_streams(pid, tier, rng, scale)
     return lines
